@@ -401,7 +401,7 @@ func TestC12(t *testing.T) {
 		}
 		h.Exhaustive("version numbers 0..20 x 7 boundary msize values")
 	}
-	rapidCases(h, "server", env.PerShard(env.Pick(6000, 500000)), func(rt *rapid.T) verCase {
+	rapidCases(h, "server", env.PerShard(env.Pick(48000, 1000000)), func(rt *rapid.T) verCase {
 		c := verCase{Msize: genMsize(rt), Version: genVersionString(rt), Tag: refcodec.NOTAG}
 		if rapid.IntRange(0, 9).Draw(rt, "tagk") == 0 {
 			c.Tag = rapid.Uint16().Draw(rt, "tag")
@@ -423,7 +423,7 @@ func TestC12(t *testing.T) {
 		}
 		return f
 	})
-	rapidCases(h, "client", env.PerShard(env.Pick(600, 20000)), genCverCase, func(c cverCase) *fail {
+	rapidCases(h, "client", env.PerShard(env.Pick(2400, 40000)), genCverCase, func(c cverCase) *fail {
 		f := runCverCase(c)
 		req := c.ClientMsize
 		if req == 0 {
